@@ -283,7 +283,7 @@ func printInfo(id string) {
 	}
 	b, _ := json.Marshal(map[string]interface{}{
 		"id": p.ID, "level": p.Level, "rule": p.Rule, "quick_sec": p.QuickSec, "thorough_sec": p.ThoroughSec,
-		"race": p.Race, "race_phases": p.RacePhases, "phase_budget": p.PhaseBudget, "procs": p.Procs, "workers": p.Workers, "run_timeout_sec": p.RunTimeoutSec, "phases": phases,
+		"race": p.Race, "race_phases": p.RacePhases, "phase_budget": p.PhaseBudget, "hang_kind": p.HangKind, "procs": p.Procs, "workers": p.Workers, "run_timeout_sec": p.RunTimeoutSec, "phases": phases,
 		"assumptions": p.Assumptions, "components": p.Components, "campaigns": camps, "enumerated": enum,
 	})
 	fmt.Println(string(b))
